@@ -407,6 +407,12 @@ pub fn err_kind(e: &celestia_types::Error) -> String {
                 "commit-height"
             } else if m.starts_with("commit block_id hash") {
                 "commit-block-id-hash"
+            } else if m.starts_with("column_roots len") {
+                "dah-cols-rows"
+            } else if m.starts_with("row_roots len") && m.contains("< minimum") {
+                "dah-too-small"
+            } else if m.starts_with("row_roots len") && m.contains("> maximum") {
+                "dah-too-big"
             } else {
                 return format!("validation-other({})", m.replace(' ', "_"));
             };
@@ -621,4 +627,52 @@ pub fn make_header(
         }
     }
     ExtendedHeader { header, commit, validator_set: set.clone(), dah }
+}
+
+// ---------- full extended headers (C01) ----------
+
+use celestia_types::nmt::{NamespacedHash, NamespacedHashExt};
+
+pub fn dah_of(rows: &[Vec<u8>], cols: &[Vec<u8>]) -> Option<DataAvailabilityHeader> {
+    let r: Option<Vec<NamespacedHash>> = rows.iter().map(|b| NamespacedHash::from_raw(b).ok()).collect();
+    let c: Option<Vec<NamespacedHash>> = cols.iter().map(|b| NamespacedHash::from_raw(b).ok()).collect();
+    Some(DataAvailabilityHeader::new_unchecked(r?, c?))
+}
+
+/// header + commit + set + DAH roots + the three hashes and the light-verification oracle bits,
+/// all computed with the real code
+pub fn fmt_eh_full(eh: &ExtendedHeader, pre: &str, raw: bool) -> String {
+    let rows: Vec<Vec<u8>> = eh.dah.row_roots().iter().map(|r| r.to_vec()).collect();
+    let cols: Vec<Vec<u8>> = eh.dah.column_roots().iter().map(|r| r.to_vec()).collect();
+    let bits = light_bits(&eh.validator_set, &eh.commit, &eh.header.chain_id);
+    format!(
+        "{} {} {} {pre}rows={} {pre}cols={} {pre}xh={} {pre}xv={} {pre}xd={} {pre}xb={}",
+        fmt_header(&eh.header, pre),
+        fmt_commit(&of_commit(&eh.commit), pre),
+        fmt_set(&of_set(&eh.validator_set, raw), pre),
+        hxl(&rows),
+        hxl(&cols),
+        fmt_hash(&eh.header.hash()),
+        fmt_hash(&eh.validator_set.hash()),
+        fmt_hash(&eh.dah.hash()),
+        bits_str(&bits),
+    )
+}
+
+pub fn parse_eh_full(line: &str, pre: &str) -> Option<ExtendedHeader> {
+    let rows = unhxl(arg(line, &format!("{pre}rows"))?)?;
+    let cols = unhxl(arg(line, &format!("{pre}cols"))?)?;
+    Some(ExtendedHeader {
+        header: parse_header(line, pre)?,
+        commit: to_commit(&parse_commit(line, pre)?),
+        validator_set: to_set(&parse_set(line, pre)?),
+        dah: dah_of(&rows, &cols)?,
+    })
+}
+
+pub fn validate_str(eh: &ExtendedHeader) -> String {
+    match eh.validate() {
+        Ok(()) => "ok".into(),
+        Err(e) => format!("err {}", err_kind(&e)),
+    }
 }
